@@ -63,6 +63,8 @@ type verifKernel struct {
 	walk       []verifWalkEnt
 	walkErr    error
 	file       *os.File
+	sysOpens   int
+	sysCloses  int
 }
 
 type verifWalkEnt struct {
@@ -204,6 +206,11 @@ func verifInotifyRead(f *os.File, b []byte) (int, error) {
 		if r.err != nil {
 			return 0, r.err
 		}
+		if len(b) < r.n {
+			// inotify(7): a read with a buffer too small for the next event fails with EINVAL
+			// (conservatively: the buffer must hold what the kernel has queued for this read)
+			return 0, unix.EINVAL
+		}
 		verifHavoc(b)
 		verifFillBuffer(i, b, r.n)
 		return r.n, nil
@@ -302,4 +309,16 @@ func verifStatAny(name string) (os.FileInfo, error) {
 		return verifAnyFI{name: name, dir: true}, nil
 	}
 	return verifAnyFI{name: name}, nil
+}
+
+// Descriptors the backend might open directly (it does not today): counted, so
+// that "everything opened is closed again" can be asserted.
+func verifSysOpen(path string, mode int, perm uint32) (int, error) {
+	verifK.sysOpens++
+	return 200 + verifK.sysOpens, nil
+}
+
+func verifSysClose(fd int) error {
+	verifK.sysCloses++
+	return nil
 }
